@@ -184,6 +184,10 @@ Proof. unfold loopExit. destruct (_ && _); [|left; reflexivity]. destruct (estat
 
 Lemma K_loopExit b s k B n0 a0 E0 t : K b s k B n0 a0 E0 t -> K b s k B n0 a0 E0 (loopExit t).
 Proof. intros H. destruct (loopExit_cases t) as [->| ->]; [exact H|]. destruct H as (N & n & a & H). exists N, n, a. exact H. Qed.
+Lemma K_abort b s k B n0 a0 E0 t : K b s k B n0 a0 E0 t -> K b s k B n0 a0 E0 (abortOnReset t).
+Proof. intros H. destruct H as (N & n & a & H). exists N, n, a. exact H. Qed.
+Lemma PU_abort t : PU t -> PU (abortOnReset t).
+Proof. intros H. exact H. Qed.
 Lemma PU_loopExit t : PU t -> PU (loopExit t).
 Proof. intros H. destruct (loopExit_cases t) as [->| ->]; exact H. Qed.
 Lemma loopExit_RC t : RC (loopExit t) = RC t.
@@ -276,7 +280,7 @@ Proof.
   { apply (StepOK_close b n a t t0 0); [exact K0|apply P29_pos|exact Hs|exact P0|exact E0]. }
   destruct (has (s_flags sg) fRst).
   { destruct (acceptable _ _ _).
-    - apply (StepOK_reset b n a t t0 0); [exact K0|apply P29_pos|exact Hs|exact P0|exact E0].
+    - apply (StepOK_close b n a t (abortOnReset t0) 0); [apply K_abort; exact K0|apply P29_pos|exact Hs|apply PU_abort; exact P0|exact E0].
     - apply StepOK_finish; assumption. }
   cbv zeta.
   set (t1 := if has (s_flags sg) fAck then _ else t0).
